@@ -21,7 +21,7 @@ type c10Op struct {
 	Kind string `json:"k"`           // set move remove tick drain stop badset badmove badremove
 	Key  int    `json:"key,omitempty"` // index into keys
 	Val  int    `json:"v,omitempty"`
-	M    int    `json:"m,omitempty"`    // delay = M*I (+ I/2 when Half)
+	M    int64  `json:"m,omitempty"`    // delay = M*I (+ I/2 when Half); int64: far delays exceed 2^31 intervals, also in the 32-bit build (unit lib/collection@386)
 	Half bool   `json:"half,omitempty"` // exercises the floor
 	N    int    `json:"n,omitempty"`    // tick: number of ticks
 	NW   bool   `json:"nw,omitempty"`   // do not wait for the wheel to become quiescent after this call
@@ -91,7 +91,8 @@ type c10Fire struct {
 }
 
 type c10Pending struct {
-	val, due int
+	val int
+	due int64 // tick count; int64 because ticks + M exceeds a 32-bit int for far delays
 }
 
 // c10Far: delays of at least this many intervals are "far" — they lie beyond every
@@ -252,7 +253,7 @@ func c10InterpP(t *testing.T, c c10Case, probe func(w *TimingWheel, classes map[
 			delete(model, k)
 			if ra := modelRearms[k]; ra.rn > 0 {
 				modelRearms[k] = rearm{ra.re, ra.rn - 1}
-				model[k] = c10Pending{val: p.val, due: ticks + ra.re}
+				model[k] = c10Pending{val: p.val, due: int64(ticks + ra.re)}
 				classes["rearmed-from-callback"] = true
 			}
 		}
@@ -317,7 +318,7 @@ func c10InterpP(t *testing.T, c c10Case, probe func(w *TimingWheel, classes map[
 							classes["reset"] = true
 							nontrivial = true
 						}
-						if o.M >= c.Slots {
+						if o.M >= int64(c.Slots) {
 							classes["multi-revolution"] = true
 						}
 						_, mv := c10SetVal(o)
@@ -327,7 +328,7 @@ func c10InterpP(t *testing.T, c c10Case, probe func(w *TimingWheel, classes map[
 						if o.M >= c10Far {
 							classes["far-delay"] = true
 						}
-						model[o.Key] = c10Pending{val: mv, due: ticks + o.M}
+						model[o.Key] = c10Pending{val: mv, due: int64(ticks) + o.M}
 						modelRearms[o.Key] = rearm{o.Re, o.RN}
 					case "move":
 						if pending {
@@ -336,7 +337,7 @@ func c10InterpP(t *testing.T, c c10Case, probe func(w *TimingWheel, classes map[
 							if o.M >= c10Far {
 								classes["far-delay"] = true
 							}
-							model[o.Key] = c10Pending{val: p.val, due: ticks + o.M}
+							model[o.Key] = c10Pending{val: p.val, due: int64(ticks) + o.M}
 						} else {
 							classes["move-absent"] = true
 						}
@@ -386,7 +387,7 @@ func c10InterpP(t *testing.T, c c10Case, probe func(w *TimingWheel, classes map[
 					var want []c10Fire
 					if !stopped && !drained {
 						for k, p := range model {
-							if p.due == ticks {
+							if p.due == int64(ticks) {
 								want = append(want, c10Fire{key: k, val: p.val, tick: ticks})
 								fire(k, p)
 							}
@@ -397,7 +398,7 @@ func c10InterpP(t *testing.T, c c10Case, probe func(w *TimingWheel, classes map[
 					if fmt.Sprint(got) != fmt.Sprint(want) {
 						overdue := ""
 						for k, p := range model {
-							if p.due < ticks {
+							if p.due < int64(ticks) {
 								overdue += fmt.Sprintf(" key %d due %d", k, p.due)
 							}
 						}
@@ -499,8 +500,8 @@ func c10InterpP(t *testing.T, c c10Case, probe func(w *TimingWheel, classes map[
 			nearest := func() int {
 				maxDue := ticks
 				for _, p := range model {
-					if p.due > maxDue && p.due-ticks < c10Far/2 {
-						maxDue = p.due
+					if p.due > int64(maxDue) && p.due-int64(ticks) < c10Far/2 {
+						maxDue = int(p.due)
 					}
 				}
 				return maxDue
@@ -517,7 +518,7 @@ func c10InterpP(t *testing.T, c c10Case, probe func(w *TimingWheel, classes map[
 				var want []c10Fire
 				if !drained {
 					for k, p := range model {
-						if p.due == ticks {
+						if p.due == int64(ticks) {
 							want = append(want, c10Fire{key: k, val: p.val, tick: ticks})
 							fire(k, p)
 						}
@@ -575,9 +576,12 @@ func c10InterpP(t *testing.T, c c10Case, probe func(w *TimingWheel, classes map[
 }
 
 // c10FarM: a delay of 2^e + r intervals, e in 31..39 (10 ms * 2^39 still fits a Duration).
-func c10FarM(rt *rapid.T) int {
+// Computed in int64, so the 32-bit build (unit lib/collection@386) draws the same delays:
+// 2^31 - 3 .. 2^31 - 1 (steps fit an int32, hand position + steps does not), 2^31 .. 2^32 - 1
+// (negative when truncated to 32 bits) and 2^32 + r and beyond (small when truncated).
+func c10FarM(rt *rapid.T) int64 {
 	e := rapid.IntRange(31, 39).Draw(rt, "fare")
-	return 1<<e + rapid.IntRange(-3, 40).Draw(rt, "farr")
+	return int64(1)<<e + int64(rapid.IntRange(-3, 40).Draw(rt, "farr"))
 }
 
 func c10Gen(rt *rapid.T) c10Case {
@@ -600,7 +604,7 @@ func c10Gen(rt *rapid.T) c10Case {
 		n = rapid.IntRange(5, 40).Draw(rt, "widenops")
 		wide = true
 		for k := 0; k < nkeys; k++ { // everything pending with long delays
-			c.Ops = append(c.Ops, c10Op{Kind: "set", Key: k, Val: k, M: 2*c.Slots + 1 + rapid.IntRange(0, c.Slots).Draw(rt, "widem")})
+			c.Ops = append(c.Ops, c10Op{Kind: "set", Key: k, Val: k, M: int64(2*c.Slots + 1 + rapid.IntRange(0, c.Slots).Draw(rt, "widem"))})
 		}
 	}
 	maxM := 3*c.Slots + 1
@@ -624,7 +628,7 @@ func c10Gen(rt *rapid.T) c10Case {
 		case "set":
 			o.Key = rapid.IntRange(0, nkeys-1).Draw(rt, "key")
 			o.Val = rapid.IntRange(0, 99).Draw(rt, "val")
-			o.M = rapid.IntRange(1, maxM).Draw(rt, "m")
+			o.M = int64(rapid.IntRange(1, maxM).Draw(rt, "m"))
 			o.Half = rapid.Bool().Draw(rt, "half")
 			o.NW = !stopped && rapid.IntRange(0, 2).Draw(rt, "nw") == 0
 			o.NilV = rapid.IntRange(0, 5).Draw(rt, "nilv") == 5
@@ -637,7 +641,7 @@ func c10Gen(rt *rapid.T) c10Case {
 			}
 		case "move":
 			o.Key = rapid.IntRange(0, nkeys-1).Draw(rt, "key")
-			o.M = rapid.IntRange(1, maxM).Draw(rt, "m")
+			o.M = int64(rapid.IntRange(1, maxM).Draw(rt, "m"))
 			o.Half = rapid.Bool().Draw(rt, "half")
 			if rapid.IntRange(0, 11).Draw(rt, "far") == 11 && farOK {
 				o.M = c10FarM(rt)
@@ -649,7 +653,7 @@ func c10Gen(rt *rapid.T) c10Case {
 			o.N = rapid.IntRange(1, c.Slots+2).Draw(rt, "n")
 		case "badset", "badmove":
 			o.Key = rapid.IntRange(0, nkeys-1).Draw(rt, "key")
-			o.M = rapid.SampledFrom([]int{0, -1, 1, -2, -3}).Draw(rt, "m") // 1 => nil key
+			o.M = int64(rapid.SampledFrom([]int{0, -1, 1, -2, -3}).Draw(rt, "m")) // 1 => nil key
 		case "drain":
 			drained = true
 			if rapid.IntRange(0, 2).Draw(rt, "slowdrain") == 0 {
@@ -701,11 +705,11 @@ func c10Enumerate(maxN int) func(yield func(c10Case) bool) {
 								if a > 0 {
 									base = append(base, c10Op{Kind: "tick", N: a})
 								}
-								base = append(base, c10Op{Kind: "set", Key: 0, Val: 1, M: m1})
+								base = append(base, c10Op{Kind: "set", Key: 0, Val: 1, M: int64(m1)})
 								if b > 0 {
 									base = append(base, c10Op{Kind: "tick", N: b})
 								}
-								base = append(base, c10Op{Kind: k2, Key: 0, Val: 2, M: m2})
+								base = append(base, c10Op{Kind: k2, Key: 0, Val: 2, M: int64(m2)})
 								if !yield(c10Case{Slots: n, Ops: append([]c10Op(nil), base...)}) {
 									return
 								}
@@ -720,7 +724,7 @@ func c10Enumerate(maxN int) func(yield func(c10Case) bool) {
 											if c > 0 {
 												ops = append(ops, c10Op{Kind: "tick", N: c})
 											}
-											ops = append(ops, c10Op{Kind: k3, Key: 0, Val: 3, M: m3})
+											ops = append(ops, c10Op{Kind: k3, Key: 0, Val: 3, M: int64(m3)})
 											if !yield(c10Case{Slots: n, Ops: ops}) {
 												return
 											}
@@ -761,7 +765,7 @@ func c10BulkGen(rt *rapid.T) c10Case {
 		churn = rapid.IntRange(21500, 25000).Draw(rt, "churn2")
 	}
 	if pend > 0 {
-		c.Ops = append(c.Ops, c10Op{Kind: "bset", Key: 0, N: pend, Val: 1, M: long})
+		c.Ops = append(c.Ops, c10Op{Kind: "bset", Key: 0, N: pend, Val: 1, M: int64(long)})
 	}
 	block := rapid.IntRange(400, 1500).Draw(rt, "block")
 	key := 100000
@@ -778,7 +782,7 @@ func c10BulkGen(rt *rapid.T) c10Case {
 		key += block
 		if midTotal < 300 && rapid.IntRange(0, 3).Draw(rt, "mid") == 0 {
 			n := rapid.IntRange(1, 40).Draw(rt, "midn")
-			c.Ops = append(c.Ops, c10Op{Kind: "bset", Key: midKey, N: n, Val: 5, M: long + rapid.IntRange(-100, 100).Draw(rt, "midd")})
+			c.Ops = append(c.Ops, c10Op{Kind: "bset", Key: midKey, N: n, Val: 5, M: int64(long + rapid.IntRange(-100, 100).Draw(rt, "midd"))})
 			for k := 0; k < n; k++ {
 				addr = append(addr, midKey+k)
 			}
@@ -787,7 +791,7 @@ func c10BulkGen(rt *rapid.T) c10Case {
 		}
 	}
 	fresh := rapid.IntRange(1, 60).Draw(rt, "fresh")
-	c.Ops = append(c.Ops, c10Op{Kind: "bset", Key: 500000, N: fresh, Val: 3, M: rapid.IntRange(20, 200).Draw(rt, "freshdelay")})
+	c.Ops = append(c.Ops, c10Op{Kind: "bset", Key: 500000, N: fresh, Val: 3, M: int64(rapid.IntRange(20, 200).Draw(rt, "freshdelay"))})
 	for k := 0; k < fresh; k++ {
 		addr = append(addr, 500000+k)
 	}
@@ -807,9 +811,9 @@ func c10BulkGen(rt *rapid.T) c10Case {
 		case 0:
 			c.Ops = append(c.Ops, c10Op{Kind: "remove", Key: k})
 		case 1:
-			c.Ops = append(c.Ops, c10Op{Kind: "move", Key: k, M: rapid.IntRange(1, 300).Draw(rt, "tm")})
+			c.Ops = append(c.Ops, c10Op{Kind: "move", Key: k, M: int64(rapid.IntRange(1, 300).Draw(rt, "tm"))})
 		case 2:
-			c.Ops = append(c.Ops, c10Op{Kind: "set", Key: k, Val: 4, M: rapid.IntRange(1, 300).Draw(rt, "tm")})
+			c.Ops = append(c.Ops, c10Op{Kind: "set", Key: k, Val: 4, M: int64(rapid.IntRange(1, 300).Draw(rt, "tm"))})
 		case 3:
 			c.Ops = append(c.Ops, c10Op{Kind: "tick", N: rapid.IntRange(1, 40).Draw(rt, "tn")})
 		default:
@@ -894,7 +898,7 @@ func c10SlowInterp(t *testing.T, c c10Case) (v kit.Verdict) {
 		want := map[[2]int]int{}
 		due := func() {
 			for k, p := range model {
-				if p.due == ticks {
+				if p.due == int64(ticks) {
 					want[[2]int{k, p.val}]++
 					delete(model, k)
 				}
@@ -904,11 +908,11 @@ func c10SlowInterp(t *testing.T, c c10Case) (v kit.Verdict) {
 			switch o.Kind {
 			case "set":
 				_ = w.SetTimer(o.Key, o.Val, time.Duration(o.M)*c10Interval)
-				model[o.Key] = c10Pending{val: o.Val, due: ticks + o.M}
+				model[o.Key] = c10Pending{val: o.Val, due: int64(ticks) + o.M}
 			case "move":
 				_ = w.MoveTimer(o.Key, time.Duration(o.M)*c10Interval)
 				if p, ok := model[o.Key]; ok {
-					model[o.Key] = c10Pending{val: p.val, due: ticks + o.M}
+					model[o.Key] = c10Pending{val: p.val, due: int64(ticks) + o.M}
 				}
 			case "remove":
 				_ = w.RemoveTimer(o.Key)
@@ -977,9 +981,9 @@ func c10SlowGen(rt *rapid.T) c10Case {
 	for i := 0; i < n; i++ {
 		switch rapid.IntRange(0, 9).Draw(rt, "kind") {
 		case 0, 1, 2, 3:
-			c.Ops = append(c.Ops, c10Op{Kind: "set", Key: rapid.IntRange(0, nkeys-1).Draw(rt, "key"), Val: rapid.IntRange(0, 9).Draw(rt, "val"), M: rapid.IntRange(1, 3).Draw(rt, "m")})
+			c.Ops = append(c.Ops, c10Op{Kind: "set", Key: rapid.IntRange(0, nkeys-1).Draw(rt, "key"), Val: rapid.IntRange(0, 9).Draw(rt, "val"), M: int64(rapid.IntRange(1, 3).Draw(rt, "m"))})
 		case 4:
-			c.Ops = append(c.Ops, c10Op{Kind: "move", Key: rapid.IntRange(0, nkeys-1).Draw(rt, "key"), M: rapid.IntRange(1, 3).Draw(rt, "m")})
+			c.Ops = append(c.Ops, c10Op{Kind: "move", Key: rapid.IntRange(0, nkeys-1).Draw(rt, "key"), M: int64(rapid.IntRange(1, 3).Draw(rt, "m"))})
 		case 5:
 			c.Ops = append(c.Ops, c10Op{Kind: "remove", Key: rapid.IntRange(0, nkeys-1).Draw(rt, "key")})
 		case 6, 7, 8:
